@@ -163,15 +163,25 @@ def _smoothing_call(ck: Checker, f, scope: List[ast.stmt], raw_name: str, dt_exp
     c = calls[0]
     args = [unparse(x) for x in c.args]
     opk = unparse(c.func.slice)
-    env = {}
-    for st in scope:
-        for sub in ast.walk(st):
-            if isinstance(sub, ast.Assign):
-                if isinstance(sub.targets[0], ast.Tuple) and isinstance(sub.value, ast.Tuple):
-                    for e, v in zip(sub.targets[0].elts, sub.value.elts):
-                        env[unparse(e)] = unparse(v)
-                elif isinstance(sub.targets[0], ast.Name):
-                    env[sub.targets[0].id] = unparse(sub.value)
+    rd = reaching(f)
+
+    class _Env:
+        """value text of the single definition of a name that reaches the smoothing call"""
+        def get(self, name, default=None):
+            if name is None:
+                return default
+            defs = rd.def_stmts(name, c)
+            if len(defs) != 1 or not isinstance(defs[0], ast.Assign):
+                return default
+            d = defs[0]
+            t = d.targets[0]
+            if isinstance(t, ast.Tuple) and isinstance(d.value, ast.Tuple):
+                for e, v in zip(t.elts, d.value.elts):
+                    if unparse(e) == name:
+                        return unparse(v)
+                return default
+            return unparse(d.value)
+    env = _Env()
     good = len(args) == 4 and not c.keywords and args[1] == raw_name and args[2] == "fcs" \
         and env.get(opk) == "settings.smoothing['operator']" and env.get(args[3]) == "settings.smoothing['bandwidth']"
     frq = env.get(args[0]) if args else None
